@@ -349,6 +349,24 @@ def gen_case(rng, pid, tier):
             # in the second in which a server registered its presence)
             ops.append(['cycle'] if rng.random() < 0.75 else ['cycle', 0])
     ops.append(['cycle'])
+    r3 = random.Random(repr(rng.getstate()[1][:4]) + 'late-racks')
+    if pid in SCHED_PIDS and r3.random() < (0.3 if pid == 'C04' else 0.1):
+        # (side stream) a cell that is still being built: the rack records (and with them the servers, whose parent
+        # they are) appear only after the first instances were scheduled
+        setup['late_racks'] = True
+        at = r3.randint(1, max(1, min(12, len(ops) - 1)))
+        ops[at:at] = [['racksappear'], ['cycle']]
+        if r3.random() < 0.7:
+            # ... and every affinity of the case limits its instances to one per rack
+            def _rack1(ol):
+                for o_ in ol:
+                    if o_[0] == 'app':
+                        o_[4]['affinity_limits'] = {'rack': 1}
+                    elif o_[0] == 'appsev' and len(o_) > 4 and o_[4]:
+                        o_[4][2] = {'rack': 1}
+                    elif o_[0] == 'offline':
+                        _rack1(o_[1])
+            _rack1(ops)
     return {'setup': setup, 'ops': ops}
 
 
@@ -1695,7 +1713,8 @@ def _setup(case, w):
     w.zput('/buckets/pod:1', {'parent': None})
     w.zput('/cell/pod:1', None)
     for r in su['racks']:
-        w.zput('/buckets/' + r, {'parent': 'pod:1'})
+        if not su.get('late_racks'):
+            w.zput('/buckets/' + r, {'parent': 'pod:1'})
     for s, spec in sorted(su['servers'].items(), key=lambda kv: int(kv[0])):
         _put_server(w, int(s), spec)
         if int(s) not in su.get('down', []):
@@ -2350,6 +2369,17 @@ def _apply(case, pid, run, w, op):
         path = _post_event_node(w, 'servers', [sname(sid)] if listed else [])
         guarded('event:servers', lambda: w.m.process_events(w.store.children('/events')))
         del path
+    elif k == 'racksappear':
+        if not case['setup'].get('late_racks'):
+            return
+        for r_ in case['setup']['racks']:
+            if '/buckets/' + r_ not in w.store.nodes:
+                w.zput('/buckets/' + r_, {'parent': 'pod:1'})
+        w.stats['racks-appear-late'] += 1
+        _post_event_node(w, 'buckets', None)
+        guarded('event:buckets', lambda: w.m.process_events(w.store.children('/events')))
+        _post_event_node(w, 'servers', [])
+        guarded('event:servers', lambda: w.m.process_events(w.store.children('/events')))
     elif k == 'allocs':
         w.zput('/allocations', op[1])
         w.stats['allocs-changed'] += 1
